@@ -257,6 +257,16 @@ def make_tree(rng: random.Random) -> Dict[str, Any]:
         files["pkg/anc/__init__.py"] = "x = 1\n"
         files["pkg/anc/deep/__init__.py"] = rng.choice(["from pkg import anc\n__all__ = ['anc']\n", "import pkg\nfrom pkg import anc as up\n__all__ = ['up']\n",
                                                            "from pkg.anc import deep\n__all__ = ['deep']\n"])
+    if root == "pkg" and rng.random() < 0.06:
+        # the package re-exports a whole SUB-PACKAGE from deeper in the tree while the modules of that sub-package
+        # are still waiting to be analysed (they are renamed in the queue)
+        files["pkg/impl/__init__.py"] = "x = 1\n"
+        files["pkg/impl/tools/__init__.py"] = "from . import hammer\n"
+        files["pkg/impl/tools/hammer.py"] = "def hit():\n    pass\n"
+        files["pkg/impl/tools/saw.py"] = "from .hammer import hit\nclass Saw:\n    def cut(self):\n        pass\n"
+        files["pkg/impl/tools/zz/__init__.py"] = "from ..saw import Saw\nclass Fine(Saw):\n    pass\n"
+        files["pkg/__init__.py"] = rng.choice(["from pkg.impl import tools\n__all__ = ['tools']\n",
+                                               "from .impl import tools as kit\n__all__ = ['kit']\n"])
     extra_roots: List[str] = []
     if root == "pkg" and not prepend and rng.random() < 0.08:
         # a second root: a top-level module that the package re-exports (used to abort the run)
